@@ -758,7 +758,7 @@ def extra(ctx):
         # deterministic sweeps first: every specimen of every type - each token replaced by each
         # boundary token, every truncation and octet substitution of its wire form, and the record
         # inside a message cut at every length, strict and continue_on_error
-        sw = [(what, i, procs) for what in ("text", "wire", "msg") for i in range(procs)]
+        sw = [(what, i, procs) for what in ("text", "stretch", "wire", "msg") for i in range(procs)]
         it = pool.imap_unordered(P.sweep_batch, sw)
         for _ in sw:
             try:
